@@ -805,7 +805,16 @@ pub fn gen_ops(rng: &mut Rng, m: &SchemaModel, o: &OpsOpts) -> Vec<OpFileModel> 
     while paths.len() < n_files {
         let d = rng.pick(&o.dirs).clone();
         let stem = rng.pick(&stems);
-        let p = if d.is_empty() { format!("{stem}{}.graphql", paths.len()) } else { format!("{d}/{stem}{}.graphql", paths.len()) };
+        let mut p = if d.is_empty() { format!("{stem}{}.graphql", paths.len()) } else { format!("{d}/{stem}{}.graphql", paths.len()) };
+        // the same file name in several directories: one relative spelling (`./frag1.graphql`,
+        // `../item0.graphql`) then denotes different files depending on who imports it
+        if !paths.is_empty() && rng.chance(1, 3) {
+            let b = indep::basename(rng.pick(&paths[..]).as_str()).to_string();
+            let q = if d.is_empty() { b } else { format!("{d}/{b}") };
+            if !paths.contains(&q) {
+                p = q;
+            }
+        }
         paths.push(p);
     }
     // 2. fragments per file (names, targets), global order
